@@ -441,20 +441,32 @@ impl BucketConfirmationManager {
 
         {
             let mut file = File::create(&temp_path).await?;
+            #[cfg(feature = "verif-hooks")]
+            crate::verif::crash_point(1)?;
             file.write_all(&state_bincode).await?;
+            #[cfg(feature = "verif-hooks")]
+            crate::verif::crash_point(2)?;
             file.sync_all().await?;
         }
+        #[cfg(feature = "verif-hooks")]
+        crate::verif::crash_point(3)?;
 
         // If current file exists, make it the previous backup
         if current_path.exists() {
             if previous_path.exists() {
                 fs::remove_file(&previous_path).await?;
+                #[cfg(feature = "verif-hooks")]
+                crate::verif::crash_point(4)?;
             }
             fs::rename(&current_path, &previous_path).await?;
+            #[cfg(feature = "verif-hooks")]
+            crate::verif::crash_point(5)?;
         }
 
         // Make temp file the current file
         fs::rename(&temp_path, &current_path).await?;
+        #[cfg(feature = "verif-hooks")]
+        crate::verif::crash_point(6)?;
 
         info!("wrote bucket confirmations to disk");
 
